@@ -134,6 +134,18 @@ def check_url(col, fam, u, sa):
                 bad("second-trip-same-lru", "ural.lru.conversion.url_to_lru(" + fn + ")",
                     {"first_lru": r_lru[1], "url": back[1], "second": list(again)}, r_lru[1],
                     ("exception" if again[0] != "ok" else "different lru") + " | host: " + hk)
+    if r_st[0] == "ok" and isinstance(r_st[1], list):
+        # the userinfo is carried by a 'u:' stem (the user name) and a 'w:' stem (the password, which may itself contain ':'), nothing else
+        col.count("stems-carry-userinfo")
+        us = [x[2:] for x in r_st[1] if isinstance(x, str) and x.startswith("u:")]
+        ws = [x[2:] for x in r_st[1] if isinstance(x, str) and x.startswith("w:")]
+        ui = exp.userinfo
+        if ui is not None and "|" not in u:
+            name, sep, pw = ui.partition(":")
+            want_u = [name] if name else []
+            want_w = [pw] if sep else []
+            if us != want_u or ws != want_w:
+                bad("stems-carry-userinfo", "ural.lru.stems.lru_stems", {"stems": r_st[1]}, {"u": want_u, "w": want_w}, "host: " + hk)
     if r_st[0] == "ok":
         st = r_st[1]
         col.count("unserialize-after-serialize")
